@@ -419,10 +419,12 @@ func (f *File) ReadAt(b []byte, off int64) (int, error) {
 	}
 	var n int
 	var err error
-	if f.st.Closed {
-		err = ErrClosed
-	} else if off < 0 {
+	if off < 0 {
 		err = &PathError{Op: "readat", Path: f.name, Err: syscall.EINVAL}
+	} else if len(b) == 0 {
+		// as the real package: nothing to do, not even on a closed file
+	} else if f.st.Closed {
+		err = ErrClosed
 	} else {
 		n, err = f.st.H.ReadAt(b, off)
 	}
